@@ -1,7 +1,8 @@
 (* C11 (totality), part 6: instances and witnesses, evaluated with a concrete codec that satisfies [codec_ok]
    ([ideal_codec]: the protobuf encoder with the decoder that equals the exact model on every byte string of
    Go length): [flag_ok] holds; concrete StoreOK states; adversarial inputs give Err, not Panic; the witness
-   of the open finding F11; the arithmetic of the repaired defect F3. *)
+   of the repaired finding F11 (regression: the input now gives an error; the legacy helper panics); the
+   arithmetic of the repaired defect F3. *)
 From Coq.Strings Require Import String.
 From Coq Require Import Lia.
 From EV Require Import Base.Bytes Base.Store Base.Monad gen.Consts Codec.Types Codec.Proto Codec.Ideal Codec.CodecOk
@@ -67,23 +68,45 @@ Definition mk_input (caller rcpt : bytes) (args : list bytes) (gas : N) (snd dst
   {| i_caller := caller; i_rcpt := rcpt; i_args := args; i_value := 0; i_gas := gas; i_gasLocked := 0;
      i_callType := C.DirectCall; i_rae := false; i_snd := snd; i_dst := dst |}.
 
-(* ---- FINDING F11 (open): the excluded class is not empty ---- *)
+(* ---- FINDING F11 (repaired by /repo 7b409c0): regression documentation ---- *)
 (* same-shard MultiESDTNFTTransfer(B, 1, "ABCD", nonce 0, 3) by A: the destination entry under the same key
-   carries metadata, the incoming token does not: addNFTToDestination dereferences its nil TokenMetaData *)
+   carries metadata, the incoming token does not.  Before the repair addNFTToDestination dereferenced the nil
+   TokenMetaData of the incoming token; now the call is rejected. *)
 Definition iF11 : input := mk_input addrA addrA [addrB; [x01]; tokABCD; []; [x03]] 1000 true true.
-Theorem F11_multi_fungible_onto_aliased_nft_panics :
+Example F11_input_is_an_error :
   codec_ok (cdc wE) /\ flag_ok (cdc wE) /\ StoreOK wE sF11 /\ origin_input iF11
   /\ (alen (i_args iF11) < 2 ^ 40)%N
-  /\ fst (exec wE C.BuiltInFunctionMultiESDTNFTTransfer iF11 sF11) = Panic.
+  /\ fst (exec wE C.BuiltInFunctionMultiESDTNFTTransfer iF11 sF11) = Err EWrongNFTOnDestination.
 Proof.
   split; [exact wE_codec_ok|]. split; [exact wE_flag_ok|]. split; [exact StoreOK_sF11|].
   split; [reflexivity|]. split; [reflexivity|]. vm_compute. reflexivity.
 Qed.
-(* ... and it is exactly the excluded class *)
-Lemma F11_input_is_excluded : ~ f11_excluded wE C.BuiltInFunctionMultiESDTNFTTransfer iF11.
+(* the pre-repair helper (multiESDTNFTTransfer.go / esdtNFTTransfer.go addNFTToDestination before 7b409c0):
+   [meta_of t] = dereference of the incoming token's TokenMetaData *)
+Definition legacy_add_nft_to_destination (E : env) (dst key : bytes) (t : token) (verify rae : bool) : @M err mstate token :=
+  check_payable E verify dst ;;;
+  '(cur, _) <- get_nft_on_destination E dst key (tok_nonce t) ;;
+  check_froze_and_pause dst key cur rae ;;;
+  (match t_meta cur with
+   | Some cm => m <- meta_of t ;; guard (beqb (md_hash cm) (md_hash m)) EWrongNFTOnDestination
+   | None => ret tt
+   end) ;;;
+  v <- val_of t ;; cv <- val_of cur ;;
+  let t' := set_value t (Some (v + cv)%Z) in
+  save_nft E dst key t' rae ;;;
+  ret t'.
+(* the step of the F11 call that reaches it: crediting 3 fungible "ABCD" to B *)
+Example legacy_f11_refuted :
+  fst (legacy_add_nft_to_destination wE addrB (P ++ tokABCD) (set_value fungible10 (Some 3%Z)) false false sF11) = Panic
+  /\ fst (add_nft_to_destination wE addrB (P ++ tokABCD) (set_value fungible10 (Some 3%Z)) false false sF11)
+     = Err EWrongNFTOnDestination.
+Proof. split; vm_compute; reflexivity. Qed.
+(* the two helpers differ in nothing else: same result whenever the incoming token has metadata *)
+Lemma legacy_add_nft_same E dst key t verify rae s :
+  t_meta t <> None -> legacy_add_nft_to_destination E dst key t verify rae s = add_nft_to_destination E dst key t verify rae s.
 Proof.
-  intros H. specialize (H eq_refl eq_refl addrB [x01] eq_refl eq_refl eq_refl 0%N [] ).
-  apply H; [vm_compute; reflexivity|reflexivity|reflexivity].
+  intros Hm. unfold legacy_add_nft_to_destination, add_nft_to_destination, meta_of.
+  destruct (t_meta t) as [m|]; [reflexivity|congruence].
 Qed.
 
 (* ---- non-vacuity: adversarial inputs on StoreOK states give an error, not a panic ---- *)
@@ -120,4 +143,5 @@ Example legacy_count_guard_dest_refuted :
   (4 <? u64 (u64 (nWrap * 3) + 1))%N = false /\ u64 (u64 (nWrap * 3) + 1) = 3%N /\ (4 / 3 <? nWrap)%N = true.
 Proof. vm_compute. repeat split. Qed.
 
-Print Assumptions F11_multi_fungible_onto_aliased_nft_panics.
+Print Assumptions F11_input_is_an_error.
+Print Assumptions legacy_f11_refuted.
